@@ -126,6 +126,10 @@ class Run:
         if not comparable:
             self.count('calls:not-compared(faulted)')
             return
+        hh = self.host.cfgs[op['cfg']]
+        if hh.poked is not None and hh.poked is hh.instance:
+            self.count('calls:not-compared(host wrote into this resolved Config)')
+            return
         fresh = ref['fresh']['outcome']
         if 'fresh2' in ref and ref['fresh2']['outcome'] != fresh:
             # the library's randomness is not controlled by the pinned global stream
